@@ -311,9 +311,34 @@ def run(chk, repo, tier):
     opts = {G._name(r.origin): r.options for r in L.rules}
     named = {r for r in named if not getattr(opts.get(r), 'expand1', False)} | aliases
     handlers = {}
+
+    def attr_handler(r):
+        # a handler given as a class attribute: `rule = lambda self, _: V` or `rule = factory(V)` where factory(value) returns
+        # a function that returns `value`; -> the expression V the handler returns, or None
+        for st in ei.node.body:
+            if isinstance(st, ast.Assign) and any(isinstance(t, ast.Name) and t.id == r for t in st.targets):
+                v = st.value
+                if isinstance(v, ast.Lambda):
+                    return v.body
+                if isinstance(v, ast.Call) and isinstance(v.func, ast.Name) and len(v.args) == 1 and not v.keywords:
+                    g = crm.functions.get(v.func.id)
+                    if g is not None and len(g.params) == 1:
+                        inner = [x for x in g.node.body if isinstance(x, ast.FunctionDef)]
+                        outer_ret = [x.value for x in g.node.body if isinstance(x, ast.Return)]
+                        if len(inner) == 1 and len(outer_ret) == 1 and isinstance(outer_ret[0], ast.Name) \
+                                and outer_ret[0].id == inner[0].name:
+                            irets = [x.value for x in walk_no_nested(inner[0]) if isinstance(x, ast.Return)]
+                            if len(irets) == 1 and isinstance(irets[0], ast.Name) and irets[0].id == g.params[0]:
+                                return v.args[0]
+        return None
     for r in sorted(named):
         m = repo.find_method(ei, r)
-        chk.instance(A3, f'rule {r}: handler {"yes" if m else "NO"}')
+        av = attr_handler(r) if m is None else None
+        chk.instance(A3, f'rule {r}: handler {"yes" if m or av is not None else "NO"}')
+        if av is not None:
+            if isinstance(av, (ast.Name, ast.Attribute)):
+                handlers[r] = unparse(av)
+            continue
         if m is None:
             chk.violation(A3, crm.rel, 'ExpressionInterpreter', f'no handler for rule `{r}`',
                           'the interpreter falls back to visiting children and returns a list instead of a value',
@@ -363,7 +388,8 @@ def run(chk, repo, tier):
                               witness='a typo is read as a function call')
             elif got != want:
                 chk.violation(A3, crm.rel, f'ExpressionInterpreter.{r}', f'{tok} -> {got}',
-                              f'NM-TRAN {tok} means {meaning} ({want})', line=repo.find_method(ei, r).node.lineno,
+                              f'NM-TRAN {tok} means {meaning} ({want})',
+                              line=getattr(getattr(repo.find_method(ei, r), 'node', None), 'lineno', ei.node.lineno),
                               witness=f'an expression using {tok}: the read model computes another function')
     for tok, meaning in ops['tokens'].items():
         if not any(tok in t for t in rule_tokens.values()):
